@@ -48,6 +48,9 @@ def run(ctx):
         import wiring
         ctx.guard(wiring.builders, ctx, cfg, fs, 'S.strictness', r'^(positional|params::build_positional|params::ParsePositional::<T>::(strict|non_strict|help))$')
         ctx.guard(classes, ctx, cfg, fs)
+        # which item is the separator is decided while tokenizing, never by looking at the text of items collected so far (shared with C05)
+        import c05 as c05t
+        ctx.guard(c05t.tokenizer_context_free, ctx, cfg, fs, 'T.tokenizer')
         import c12
         # a strict positional may open an adjacent group: Meta::first_item looks through the Strict wrapper like through any other (shared with C12)
         ctx.guard(c12.walker_rules, ctx, cfg, fs, 'S.strictness', {'first_item': c12.WALKERS['first_item']})
